@@ -420,6 +420,8 @@ struct Oracle {
     online_pending_at_cancel: bool,
     clear_since: Option<u64>,
     reported_hang: bool,
+    /// the latest connection event the event loop returned from `poll` was an Offline
+    polled_offline_last: bool,
 }
 
 impl Oracle {
@@ -449,6 +451,7 @@ impl Oracle {
             online_pending_at_cancel: false,
             clear_since: None,
             reported_hang: false,
+            polled_offline_last: false,
         }
     }
 
@@ -748,6 +751,7 @@ impl Oracle {
                 }
                 Ev::Polled(n) => match n.as_str() {
                     "Online" => {
+                        self.polled_offline_last = false;
                         self.bd_at_online = self.will_bd;
                         if !self.sub_since_will {
                             self.online_pending = true;
@@ -757,6 +761,7 @@ impl Oracle {
                         }
                     }
                     "Offline" => {
+                        self.polled_offline_last = true;
                         self.offline_pending = Some(false);
                         self.trigger_since_will = true;
                     }
@@ -877,6 +882,13 @@ impl Oracle {
         if c.qe {
             for dv in self.devs.values_mut() {
                 dv.dirty = false;
+            }
+            // the event loop's latest connection report was a loss and every task has come to rest with
+            // nothing parked: the node has processed that loss, so from here on publishes are refused
+            // until an NBIRTH of a new connection is accepted (C01, "after it has processed the loss")
+            if self.polled_offline_last && self.node_ok {
+                self.node_ok = false;
+                self.why = "after-polled-offline-at-rest";
             }
         }
         // C20 termination: bounded time once nothing is outstanding
